@@ -42,6 +42,39 @@ Theorem C20_confined :
 Proof. exact confined_now. Qed.
 Print Assumptions C20_confined.
 
+(* ... for any normalised absolute root (one or two '/' followed by plain segments joined by
+   single '/'), the hypothesis `normal base` of DESIGN.md *)
+Theorem C20_confined_normal_base :
+  forall base id p,
+    Path.abs_normal N sepN dotN base ->
+    get_rails_path_now base id = Accept p ->
+    Path.inside N N.eq_dec sepN dotN base p.
+Proof. exact confined_normal_base_now. Qed.
+Print Assumptions C20_confined_normal_base.
+
+(* abspath under an absolute working directory always is such a root *)
+Theorem C20_abspath_normal :
+  forall cwd root,
+    Path.starts_with_sep N N.eq_dec sepN cwd = true ->
+    Path.abs_normal N sepN dotN (abspathN cwd root).
+Proof. exact (abspath_abs_normal N N.eq_dec sepN dotN). Qed.
+Print Assumptions C20_abspath_normal.
+
+(* FUNCTIONAL SPECIFICATION of the per-id logic (given that the reject test fires on "..", as
+   the shipped one does): reject exactly when the pattern matches; otherwise "" and "." name
+   the root and every other id names the child root/id - no other outcome exists *)
+Theorem C20_path_spec :
+  forall cwd root id,
+    Path.starts_with_sep N N.eq_dec sepN cwd = true ->
+    reject_now [dotN; dotN] = true ->
+    let base := abspathN cwd root in
+    get_rails_path_now base id =
+      if reject_now id then Reject
+      else Accept (if nstr_eqb id [] || nstr_eqb id [dotN] then base
+                   else base ++ Path.tail_sep N N.eq_dec sepN base ++ id).
+Proof. exact path_spec_now. Qed.
+Print Assumptions C20_path_spec.
+
 (* ... in the form of DESIGN.md, for a root other than "/" and "//" *)
 Theorem C20_confined_nonroot :
   forall cwd root id p,
@@ -184,6 +217,23 @@ Theorem C20_used_spec :
     /\ nth_error (snd (run_src M cwd root single default load_ok llm st (rqs1 ++ rq :: rqs2))) (length rqs1) = Some o.
 Proof. exact used_spec_now. Qed.
 Print Assumptions C20_used_spec.
+
+(* THE RequestBody LAYER.  An HTTP request is either refused by the field constraints (422,
+   nothing happens) or is exactly a chat_completion call on the validated body - so all of the
+   above holds for HTTP request sequences - and its thread id has a length within the bounds *)
+Theorem C20_http_layer :
+  forall (M : Type) cwd root single default load_ok llm st h st' o,
+    http_chat_src M cwd root single default load_ok llm st h = (st', o) ->
+    (st' = st /\ o_reply N M o = R422 /\ o_loads N M o = [] /\ o_used N M o = None)
+    \/ exists rq, Threads.validate N M (N.to_nat field_min_len) field_max_nat h = Some rq
+                  /\ chat_src M cwd root single default load_ok llm st rq = (st', o)
+                  /\ r_thread N M rq = h_thread N M h
+                  /\ r_messages N M rq = h_messages N M h
+                  /\ (forall t, r_thread N M rq = Some t ->
+                                (N.to_nat field_min_len <= length t)%nat
+                                /\ match field_max_nat with Some m => (length t <= m)%nat | None => True end).
+Proof. exact http_layer_now. Qed.
+Print Assumptions C20_http_layer.
 
 (* THE commonprefix QUIRK.  The test is character-wise: a sibling directory whose name extends
    the root's name passes it although it is not inside the root ... *)
